@@ -75,7 +75,8 @@ _EV_SPLIT = re.compile(r",(?=[A-Za-z_.])")
 
 def shift_line(kind, line, k):
     """kind: file key as in compare.file_map.  Returns the line with all coordinates moved by k."""
-    if line.startswith("#") or not line.strip():
+    if line.startswith(("# ", "##", "#read_id\t", "#feature_id\t", "#chr\t", "#chrom\t", "#isoform\t")) or \
+            not line.strip():
         return line
     nl = "\n" if line.endswith("\n") else ""
     f = line.rstrip("\n").split("\t")
